@@ -543,7 +543,24 @@ func (*MemoryTableSource).Init
 
 func (*tableStore).get
   props C16
-  ensures true
+  acquires ts.mu
+  ensures the-source-served-under-a-name-is-the-one-stored-under-it: result1 == dom(ts.sources, name) && (result1 ==> result0 == ts.sources[name])
+
+// registering a source under a name makes THAT source the one served under the name from then on (a second registration
+// replaces the first), after it was initialised; a source that cannot be initialised is not stored
+immutable tableStore: sources!
+
+func (*tableStore).register
+  props C16 C20
+  acquires ts.mu
+  modifies *
+  observe name := Name
+  observe ierr := Init
+  count inits := Init
+  atreturn the-source-is-initialised-once-before-it-is-served: $inits == 1
+  atreturn a-source-that-initialises-is-the-one-served-under-its-name-from-now-on: $ierr == nil ==> result == nil && dom(ts.sources, $name) && ts.sources[$name] == src
+  count named := Name
+  atreturn a-source-that-cannot-be-initialised-is-refused-with-its-own-error-and-not-stored: $ierr != nil ==> result == $ierr && $named == 0
 
 // an upsert replaces the stored row by the row given, whole: columns the new row lacks do not survive
 func (*Stream).UpsertTableRow
